@@ -45,7 +45,10 @@ let run_case (line : string) : string =
       let sections = List.map String.trim (String.split_on_char '|' script) in
       let head = split_ws (List.hd sections) in
       let bits = int_of_string (List.nth head 1) in
-      let opss = List.map (fun sec -> List.map parse_op (split_ws sec)) (List.tl sections) in
+      (* save has no scheduling point and does not change the state: it is left out of the
+         model programs; scripts with load are not sent to this driver *)
+      let opss = List.map (fun sec -> List.map parse_op (List.filter (fun o -> o.[0] <> 'V') (split_ws sec)))
+                   (List.tl sections) in
       let s = ref (init (gen_progs (n_of_int bits) opss)) in
       let blocked = ref None in
       let finish t =
